@@ -2,7 +2,7 @@
 Ties: T1 (timed wait-list / futex / pool pop_wait skeletons), T3 (vsched traces with a virtual clock validated
 against Model.WaitList, the real pointer list compared with the model's list at every lock release)."""
 from vlib import common as C
-from vlib import t1, t3, vs
+from vlib import t1, t3, t3_wlptr, vs
 
 ASSUMPTIONS = [
     "sequentially consistent execution of the atomic primitives",
@@ -23,7 +23,10 @@ T1_FUNCS = [("cond.c", f) for f in [
 
 
 def scenario_params(rng):
-    return ["cond", 1 + rng.below(3), 3 + rng.below(5), 1 + rng.below(3), 35, 0]
+    if rng.below(5) < 2:
+        return ["cond", 1 + rng.below(3), 3 + rng.below(5), 1 + rng.below(3), 35, 0]
+    # long queues: 4-8 waiters, timed/untimed, ULT/external, staggered deadlines (head / middle / tail time-outs)
+    return ["condq", 1 + rng.below(3), 5 + rng.below(5), 1 + rng.below(2), 20 + 10 * rng.below(4), 0]
 
 
 def validate(lg, params):
@@ -35,7 +38,16 @@ def validate(lg, params):
         idx = int(rej.split()[1]) if rej else 0
         rejects.append({"model": "Model.WaitList", "object": "C0", "reject": rej or "driver rc=%d" % drc,
                         "projected_context": lines[max(0, idx - 14): idx + 2]})
-    return rejects, trans, len(lines)
+    # the same trace on the pointer-level model: every wait-list operation replayed on Model.WLPtr, the model heap
+    # compared with the real p_head / p_tail / p_next / (timed non-head) p_prev at every release of the cond's lock
+    plines = t3_wlptr.project_wlptr(lg, "C0", lg.off("ABTI_cond", "waitlist"))
+    rej, tr, drc = t3.run_driver("wlptr", plines)
+    trans.update("wlptr:" + x for x in tr)
+    if rej or drc != 0:
+        idx = int(rej.split()[1]) if rej else 0
+        rejects.append({"model": "Model.WLPtr", "object": "C0", "reject": rej or "driver rc=%d" % drc,
+                        "projected_context": plines[max(0, idx - 14): idx + 2]})
+    return rejects, trans, len(lines) + len(plines)
 
 
 def run(res, tier, broken):
